@@ -1,0 +1,99 @@
+//go:build verif
+
+// Contracts for package datatype, read by /verif's govc (see /verif/DESIGN.md). Besides //@ comments this file holds
+// ghost lemma functions (compiled only under the verif tag, never called by the library).
+package datatype
+
+import (
+	"bytes"
+
+	"github.com/datastax/go-cassandra-native-protocol/primitive"
+)
+
+// ---- C03: the length announced for a type descriptor ([option]) equals the number of bytes written for it ---------
+// dtLen(t, v) names the encoded length of descriptor t in version v: it is what LengthOfDataType returns (ASSUMED as
+// its definition; descriptors are immutable while they are encoded). WriteDataType is ASSUMED to write that many bytes
+// where it is used for the parts of a composite type (the induction hypothesis); lemmaDataTypeLen below executes the
+// real WriteDataType and the real LengthOfDataType on the same descriptor and proves the two agree, and the
+// per-kind pairs are proved against the same vocabulary - a length function that adds up the wrong parts fails.
+//@ spec dtLen(t DataType, version primitive.ProtocolVersion) int = abstractLen("datatype", t, version)
+
+//@ func LengthOfDataType
+//@   prop C03
+//@   nilable t
+//@   assumes-assigns nothing
+//@   assumes len: err == nil ==> length == dtLen(t, version)
+//@ func WriteDataType
+//@   prop C03
+//@   nilable t
+//@   assumes-assigns wstream(dest)
+//@   assumes len: err == nil ==> written(dest) == old(written(dest)) + dtLen(t, version)
+
+//@ func writeCustomType
+//@   prop C03
+//@   assigns wstream(dest)
+//@   ensures len: err == nil ==> typeis(t, *Custom) && written(dest) == old(written(dest)) + primitive.LengthOfString(unbox(t, *Custom).ClassName)
+//@ func lengthOfCustomType
+//@   prop C03
+//@   assigns nothing
+//@   ensures len: err == nil ==> typeis(t, *Custom) && length == primitive.LengthOfString(unbox(t, *Custom).ClassName)
+
+//@ func writeListType
+//@   prop C03
+//@   assigns wstream(dest)
+//@   ensures len: err == nil ==> typeis(t, *List) && written(dest) == old(written(dest)) + dtLen(unbox(t, *List).ElementType, version)
+//@ func lengthOfListType
+//@   prop C03
+//@   assigns nothing
+//@   ensures len: err == nil ==> typeis(t, *List) && length == dtLen(unbox(t, *List).ElementType, version)
+
+//@ func writeSetType
+//@   prop C03
+//@   assigns wstream(dest)
+//@   ensures len: err == nil ==> typeis(t, *Set) && written(dest) == old(written(dest)) + dtLen(unbox(t, *Set).ElementType, version)
+//@ func lengthOfSetType
+//@   prop C03
+//@   assigns nothing
+//@   ensures len: err == nil ==> typeis(t, *Set) && length == dtLen(unbox(t, *Set).ElementType, version)
+
+//@ func writeMapType
+//@   prop C03
+//@   assigns wstream(dest)
+//@   ensures len: err == nil ==> typeis(t, *Map) && written(dest) == old(written(dest)) + dtLen(unbox(t, *Map).KeyType, version) + dtLen(unbox(t, *Map).ValueType, version)
+//@ func lengthOfMapType
+//@   prop C03
+//@   assigns nothing
+//@   ensures len: err == nil ==> typeis(t, *Map) && length == dtLen(unbox(t, *Map).KeyType, version) + dtLen(unbox(t, *Map).ValueType, version)
+
+// user-defined types and tuples loop over their field types: the writer/length agreement of these two is ASSUMED
+// (tied to one abstract length each), not proved
+//@ func writeUserDefinedType
+//@   prop C03
+//@   assumes-assigns wstream(dest)
+//@   assumes len: err == nil ==> written(dest) == old(written(dest)) + abstractLen("udt", t, version)
+//@ func lengthOfUserDefinedType
+//@   prop C03
+//@   assumes-assigns nothing
+//@   assumes len: err == nil ==> length == abstractLen("udt", t, version)
+//@ func writeTupleType
+//@   prop C03
+//@   assumes-assigns wstream(dest)
+//@   assumes len: err == nil ==> written(dest) == old(written(dest)) + abstractLen("tuple", t, version)
+//@ func lengthOfTupleType
+//@   prop C03
+//@   assumes-assigns nothing
+//@   assumes len: err == nil ==> length == abstractLen("tuple", t, version)
+
+func lemmaDataTypeLen(t DataType, version primitive.ProtocolVersion) bool {
+	buf := &bytes.Buffer{}
+	if e2 := WriteDataType(t, buf, version); e2 != nil {
+		return true
+	}
+	n, e1 := LengthOfDataType(t, version)
+	return e1 != nil || buf.Len() == n
+}
+
+//@ func lemmaDataTypeLen
+//@   prop C03
+//@   expand datatype.WriteDataType, datatype.LengthOfDataType
+//@   ensures agree: result
